@@ -469,7 +469,8 @@ def trace_conf(conf: dict) -> dict:
          "kind": conf.get("kind", "stop"), "async": bool(conf.get("async", True)),
          "wait": bool(conf.get("wait", False)), "del": bool(conf.get("del", False)), "failb": 99, "extb": 99,
          "ckind": conf.get("ckind", "script"), "k": conf.get("k", 0), "emptyexit": True, "mayexhaust": True,
-         "r3": False, "r13": False, "also": bool(conf.get("also", False)), "sim": bool(conf.get("sim", False)), "r8": False, "sjwd": bool(conf.get("sjwd", True))}
+         "r3": False, "r13": False, "also": bool(conf.get("also", False)), "sim": bool(conf.get("sim", False)), "r8": False, "sjwd": bool(conf.get("sjwd", True)),
+         "spec": bool(conf.get("spec", False))}
     return c
 
 
